@@ -65,8 +65,9 @@ func (qp *QueryProcessor) ProcessQuery(query string) *ProcessedQuery {
 	cleaned := qp.cleanQuery(query)
 	pq.Cleaned = cleaned
 
-	// Extract words
-	words := strings.Fields(strings.ToLower(cleaned))
+	// Extract words (lower-cased before cleaning, so that every capital form of a
+	// letter - including U+212A KELVIN SIGN - yields the same words)
+	words := strings.Fields(qp.cleanQuery(strings.ToLower(query)))
 
 	// Detect context clues for better intent detection
 	queryLower := strings.ToLower(query)
